@@ -373,7 +373,7 @@ fn status_code(s: &str) -> u8 {
     }
 }
 
-fn replay_one(beh: &Value, tag: &str) -> (usize, usize, Vec<Value>, Option<String>) {
+fn replay_one(beh: &Value, tag: &str, stop_on: &[String]) -> (usize, usize, Vec<Value>, Option<String>) {
     // returns (steps, comparisons, violations, drift)
     let steps = beh["steps"].as_array().unwrap();
     let path = scratch_path(tag);
@@ -396,7 +396,7 @@ fn replay_one(beh: &Value, tag: &str) -> (usize, usize, Vec<Value>, Option<Strin
     let mut seen_bounds: std::collections::HashSet<i64> = std::collections::HashSet::new();
     let mut ref_times: std::collections::HashMap<(String, u64), SystemTime> = std::collections::HashMap::new();
     let mut add = |viol: &mut Vec<Value>, p: &str, sig: &str, what: String| {
-        if viol.len() < 5 {
+        if viol.len() < 12 {
             viol.push(json!({"property": p, "signature": sig, "what": what}));
         }
     };
@@ -583,7 +583,8 @@ fn replay_one(beh: &Value, tag: &str) -> (usize, usize, Vec<Value>, Option<Strin
                         }
                     }
                 }
-                if !viol.is_empty() {
+                // stop at the first finding of a property the caller asked about (--stop-on); the others are data
+                if viol.iter().any(|v| stop_on.is_empty() || stop_on.iter().any(|p| v["property"] == p.as_str())) || viol.len() >= 12 {
                     break;
                 }
             }
@@ -603,6 +604,7 @@ fn replay_one(beh: &Value, tag: &str) -> (usize, usize, Vec<Value>, Option<Strin
 
 fn replay_cmd(args: &[String]) -> Value {
     let file = args.get(2).expect("behaviours file");
+    let stop_on: Vec<String> = arg(args, "--stop-on").map(|s| s.split(',').map(|x| x.to_string()).collect()).unwrap_or_default();
     let f = std::io::BufReader::new(std::fs::File::open(file).expect("open"));
     let (mut nb, mut steps, mut comps) = (0usize, 0usize, 0usize);
     let mut violations = vec![];
@@ -615,7 +617,7 @@ fn replay_cmd(args: &[String]) -> Value {
         let beh: Value = serde_json::from_str(&line).unwrap();
         let n = beh["n"].as_u64().unwrap_or(nb as u64);
         BASE_V.store([5000, 7, 600][(n % 3) as usize], std::sync::atomic::Ordering::Relaxed);
-        let (s, c, v, d) = replay_one(&beh, &format!("dr{n}"));
+        let (s, c, v, d) = replay_one(&beh, &format!("dr{n}"), &stop_on);
         steps += s;
         comps += c;
         if !v.is_empty() {
